@@ -79,7 +79,7 @@ type Mutation { save(input: SaveInput!): User! }
 interface Node { id: ID! }
 interface Named implements Node { id: ID! name: String }
 type User implements Node & Named { id: ID! name: String color: Color kind: Kind born: Date friends: [User!] }
-type Bot implements Node { id: ID! model: String! kind: Kind }
+type Bot implements Node { id: ID! model: String! kind: Kind built: Stamp }
 type Dog implements Node { id: ID! barks: Boolean! }
 type Cat implements Node { id: ID! lives: Int }
 union Thing = User | Bot | Dog | Cat
@@ -88,12 +88,13 @@ enum Kind { A B C }
 enum Unused { X Y }
 scalar Date
 scalar Blob
+scalar Stamp
 input Filter { a: Int = 1, color: Color, nested: Filter2 }
-input Filter2 { kind: Kind, when: Date }
+input Filter2 { kind: Kind, when: Date, at: Stamp }
 input SaveInput { name: String!, filter: Filter }
 '''
 Q2 = '''
-query GetNode($id: ID!) { node(id: $id) { id ...UserF ... on Bot { model kind } ... on Dog { barks } } }
+query GetNode($id: ID!) { node(id: $id) { id ...UserF ... on Bot { model kind built } ... on Dog { barks } } }
 query Things { things { __typename ... on User { ...UserF ...UserG ...Userg } ... on Cat { lives } ... on Bot { ...BotF } } }
 query GetUser($f: Filter, $c: Color, $d: Date) { user(f: $f, c: $c, d: $d) { ...All } }
 query NodeAbs($id: ID!) { node(id: $id) { id ... on Named { name } ... on Dog { barks } } }
@@ -135,7 +136,9 @@ def run_pipeline(strategy: str, oracle, split_files: bool, preexisting: int, plu
 
     from ariadne_codegen import main as _main
 
-    base = tempfile.mkdtemp(prefix="vh10_", dir="/tmp")
+    # the child process is started INSIDE the project directory (as the CLI is): isort fixes its source paths when it is imported
+    given = os.environ.get("VERIF_C10_BASE")
+    base = given or tempfile.mkdtemp(prefix="vh10_", dir="/tmp")
     old_oracle, old_cwd = permset.ORACLE, os.getcwd()
     old_glob = pathlib.Path.glob
     try:
@@ -162,7 +165,9 @@ def run_pipeline(strategy: str, oracle, split_files: bool, preexisting: int, plu
         if strategy == "client":
             section = {"schema_path": schema_path, "queries_path": os.path.join(base, "q.graphql"), "target_package_path": base, "target_package_name": "gcl",
                        "include_comments": "stable", "include_all_inputs": False, "include_all_enums": False,
-                       "scalars": {"Date": {"type": "datetime.date", "parse": "scal.parse_date", "serialize": "scal.ser_date"}},
+                       "scalars": {"Date": {"type": "datetime.date", "parse": "scal.parse_date", "serialize": "scal.ser_date"},
+                                   # a type that lives inside the target package itself (absolute import of the package being generated)
+                                   "Stamp": {"type": "gcl.stamps.Stamp"}},
                        "plugins": PLUGINS if plugins else []}
             target = os.path.join(base, "gcl")
         else:
@@ -211,7 +216,8 @@ def run_pipeline(strategy: str, oracle, split_files: bool, preexisting: int, plu
         pathlib.Path.glob = old_glob
         permset.ORACLE = old_oracle
         os.chdir(old_cwd)
-        shutil.rmtree(base, ignore_errors=True)
+        if not given:
+            shutil.rmtree(base, ignore_errors=True)
 
 
 _REF = {}
@@ -227,8 +233,13 @@ def child_run(strategy, perm, salt, split, pre, plugins, rev, pre_files=None):
     args = json.dumps([strategy, perm, salt, split, pre, plugins, rev, pre_files])
     env = dict(os.environ)
     env["PYTHONPATH"] = "/verif" + (":" + os.environ["VERIF_REPO"] if os.environ.get("VERIF_REPO") else "")
-    p = subprocess.run([sys.executable, "-c", "import sys, json; from harness import C10_order as H; H.child_main(json.loads(sys.argv[1]))", args],
-                       capture_output=True, text=True, env=env, timeout=300)
+    base = tempfile.mkdtemp(prefix="vh10_", dir="/tmp")
+    env["VERIF_C10_BASE"] = base
+    try:
+        p = subprocess.run([sys.executable, "-c", "import sys, json; from harness import C10_order as H; H.child_main(json.loads(sys.argv[1]))", args],
+                           capture_output=True, text=True, env=env, timeout=300, cwd=base)
+    finally:
+        shutil.rmtree(base, ignore_errors=True)
     if "@@OUT@@" not in p.stdout:
         raise RuntimeError("pipeline child failed: " + (p.stderr or p.stdout)[-1500:])
     return json.loads(p.stdout.split("@@OUT@@", 1)[1])
@@ -253,13 +264,35 @@ def reference(strategy, plugins, split):
 SCENARIOS = [(False, 0, False), (True, 2, True), (False, 1, False), (True, 0, False)]
 
 
+def only_import_sections(ref, got) -> bool:
+    """the two generations differ only in where isort puts the absolute imports of the target package (section / blank lines)"""
+    if set(ref) != set(got):
+        return False
+    changed = [fn for fn in ref if ref[fn] != got[fn]]
+    for fn in changed:
+        a = [ln for ln in ref[fn].splitlines() if ln.strip()]
+        b = [ln for ln in got[fn].splitlines() if ln.strip()]
+        if sorted(a) != sorted(b) or "from gcl." not in ref[fn]:
+            return False
+        if [ln for ln in a if not ln.startswith(("from ", "import "))] != [ln for ln in b if not ln.startswith(("from ", "import "))]:
+            return False
+    return bool(changed)
+
+
 def _pipeline_check(strategy: str, plugins: bool, perm: int, salt: int, scen: int) -> bool:
     p = pick(perm, len(PERMS))
     sp, pr, rv = SCENARIOS[pick(scen, len(SCENARIOS))]
     with NoTracing():
         ref = reference(strategy, plugins, sp)
         got = child_run(strategy, p, salt, sp, pr, plugins, rv, ref if pr else None)
-        return got == ref
+        if got == ref:
+            return True
+        listed = bool(pr) and only_import_sections(ref, got)
+    if listed:
+        from harness._h import known
+
+        return known("C10-import-section-depends-on-existing-target")
+    return False
 
 
 def parts_source() -> str:
